@@ -72,6 +72,13 @@ OBJECTS = [s[0] for s in obj_specs()]
 def build_obj(spec):
     name, ir, sem, grad = spec
     g = IR.build_fgg(ir, sem, 'float64', requires_grad=grad, pres={'ids': 'asc'})
+    # an interpretation may cover labels that no rule uses: a spare domain and a spare factor
+    import fggs, torch
+    g.add_node_label(fggs.NodeLabel('Spare'))
+    g.new_finite_domain('Spare', ['p', 'q', 'r'])
+    g.add_edge_label(fggs.EdgeLabel('spare', [fggs.NodeLabel('Spare')], is_terminal=True))
+    S = IR.semiring(sem, 'float64')
+    g.new_finite_factor('spare', S.from_int(torch.tensor([1, 0, 2])))
     return g
 
 
